@@ -50,6 +50,9 @@ type scope struct {
 
 	// closed is closed once Close has finished; Close calls that lose the race wait for it
 	closed chan struct{}
+
+	// closeErr is the outcome of the disposal; written before closed is closed
+	closeErr error
 }
 
 func newScope(rootProvider *provider, parent *scope, ctx context.Context, cancel context.CancelFunc) (*scope, error) {
@@ -247,15 +250,28 @@ func (s *scope) CreateScope(ctx context.Context) (Scope, error) {
 
 // Close disposes the scope and all its resources
 func (s *scope) Close() error {
+	first, err := s.dispose()
+	if !first {
+		return nil
+	}
+	return err
+}
+
+// dispose closes the scope unless that has already been done or is being done by
+// another goroutine. It reports the outcome of the one disposal that took place, so
+// that the owner closing this scope as part of its own Close learns about a failure
+// even when the scope's cancellation watcher got there first.
+func (s *scope) dispose() (first bool, err error) {
 	if !atomic.CompareAndSwapInt32(&s.disposed, 0, 1) {
 		// Already closed, or being closed by another goroutine - typically the
 		// scope's own cancellation watcher, which the parent's Close wakes up.
 		// Return only when the scope really is closed, so that a parent never
 		// disposes its instances (nor the provider its singletons) too early.
 		<-s.closed
-		return nil
+		return false, s.closeErr
 	}
 	defer close(s.closed)
+	defer func() { s.closeErr = err }()
 
 	var errs []error
 
@@ -274,7 +290,7 @@ func (s *scope) Close() error {
 	s.childrenMu.Unlock()
 
 	for _, child := range children {
-		if err := child.Close(); err != nil {
+		if _, err := child.dispose(); err != nil {
 			errs = append(errs, fmt.Errorf("failed to close child scope: %w", err))
 		}
 	}
@@ -311,13 +327,13 @@ func (s *scope) Close() error {
 	s.instancesMu.Unlock()
 
 	if len(errs) > 0 {
-		return &DisposalError{
+		return true, &DisposalError{
 			Context: "scope",
 			Errors:  errs,
 		}
 	}
 
-	return nil
+	return true, nil
 }
 
 // lockCreation serialises the construction of one scoped registration in this scope.
